@@ -733,7 +733,8 @@ impl Case for C18Case {
                 w.quiet = true;
                 let io = LineIo {
                     max_instr: 8_000_000,
-                    replies: vec!["1".into(), "2,DEEP,3".into(), "4,X,5".into()],
+                    // wrong field count, then an unconvertible field, then acceptable replies
+                    replies: vec!["1".into(), "x,DEEP,3".into(), "2,DEEP,3".into(), "4,X,5".into()],
                     ..Default::default()
                 };
                 let o = w.line("RUN", &io);
@@ -751,6 +752,15 @@ impl Case for C18Case {
                 let oom = errors.iter().any(|e| e.starts_with("?OUT OF MEMORY"));
                 if oom {
                     w.stats.bump("c18.oom_reached");
+                }
+                if let Some(e) = errors.iter().find(|e| e.starts_with("?INTERNAL ERROR")) {
+                    // a pool at its limit ends in OUT OF MEMORY, never in a broken VM invariant
+                    if w.fatal.is_none() {
+                        fail = Some(Violation {
+                            key: format!("C18:{}:internal-error", tag),
+                            detail: format!("driving the pool to its limit reported {:?} (all reports: {:?})", e, errors),
+                        });
+                    }
                 }
                 if w.fatal.is_none() {
                     // at the very edge a statement may still fit: ending normally is fine there
